@@ -13,7 +13,7 @@ from .common import run_tlc, ToolError
 
 O_CREAT, O_EXCL, O_APPEND, O_WRONLY, O_RDWR = 0o100, 0o200, 0o2000, 1, 2
 
-MODELLED = {"write", "read", "metadata", "exists", "list", "remove", "remove_hash"}
+MODELLED = {"write", "read", "metadata", "exists", "list", "remove", "remove_hash", "link_to"}
 
 
 def event_class(e):
@@ -34,14 +34,22 @@ def event_class(e):
         return cls
     elif area == "content" and e["file"] and name.startswith("unlink"):
         cls = "unlink_content"
+    elif area == "content" and name in ("symlink", "symlinkat"):
+        cls = "symlink"
     if cls != "noise" and not ok:
         return "failed_effect"
     return cls
 
 
-def abstract_op(sop):
+def abstract_op(sop, ext=None):
     """contract-level op record -> operation record of CacacheFS"""
     op = sop["op"]
+    if op == "link_to":
+        # the data is what the target holds when the run begins
+        d = (ext or {}).get(sop.get("target"))
+        if d is None or "key" not in sop:
+            return None
+        return {"op": "link_to", "k": sop["key"], "d": d}
     if op == "write":
         o = {"op": "write" if "key" in sop else "write_hash", "d": sop["data"]}
         if "key" in sop:
@@ -65,14 +73,16 @@ def abstract_op(sop):
 def l2_events(events):
     """events of ONE scenario run -> L2 trace lines, or None if the run is outside the model"""
     out = []
+    ext = {}
     for e in events:
         ev = e["ev"]
         if ev == "begin":
+            ext = {x["id"]: x["b"] for x in e["snap"].get("ext", [])}
             out.append({"ev": "begin", "snap": e["snap"]})
         elif ev == "spawn":
             if e["op"]["op"] not in MODELLED:
                 return None
-            o = abstract_op(e["op"])
+            o = abstract_op(e["op"], ext)
             if o is None:
                 return None
             out.append({"ev": "spawn", "p": e["p"], "o": o})
